@@ -367,6 +367,45 @@ func edgeGrid() []seqSpec {
 	lpMixed += fmt.Sprintf("b v=1i %d\nb v=\"x\" %d\n", t*1000, t*1000+1000)
 	add("lp-mixed-types", reqLP("lp", "db1", lpMixed, "lp-mixed"))
 	add("implp-mixed-types", reqLP("implp", "db1", lpMixed, "implp-mixed"))
+	// --- one INVALID measurement name among many valid ones, in every position: name validation must reject
+	// the whole request before anything is buffered (Go map order would expose a validate-while-writing loop)
+	{
+		valid := []string{"a", "c", "d", "e", "f", "g", "h", "i"}
+		for _, ep := range []string{"lp", "lp1", "implp"} {
+			var rs []reqSpec
+			for pos := 0; pos <= len(valid); pos += 2 {
+				body := ""
+				for j, m := range valid {
+					if j == pos {
+						body += fmt.Sprintf("9bad v=1i %d\n", t*1000)
+					}
+					body += fmt.Sprintf("%s v=1i %d\n", m, t*1000)
+				}
+				if pos == len(valid) {
+					body += fmt.Sprintf("a.b v=1i %d\n", t*1000)
+				}
+				rs = append(rs, reqLP(ep, "db1", body, ep+"-invalid-measurement-name"))
+			}
+			one("invalid-measurement-name-"+ep, rs...)
+		}
+		var rs []reqSpec
+		for pos := 0; pos <= len(valid); pos += 2 {
+			var items []interface{}
+			for j, m := range valid {
+				if j == pos {
+					items = append(items, columnarMap("9bad", []col{timesCol(t, 1), colOf("v", int64(1))}))
+				}
+				items = append(items, columnarMap(m, []col{timesCol(t, 1), colOf("v", int64(1))}))
+			}
+			if pos == len(valid) {
+				items = append(items, rowMap("a.b", int64(1700000000), nil, mpMap{{"v", int64(1)}}))
+			}
+			rs = append(rs, reqMsgpackRaw("db1", mp(items), "array-invalid-measurement-name"))
+			rs = append(rs, reqMsgpackRaw("db1", mp(mpMap{{"batch", items}}), "batch-invalid-measurement-name"))
+		}
+		one("invalid-measurement-name-msgpack", rs...)
+		one("invalid-database-name-multi", reqLP("lp", "9db", "a v=1i\nb v=1i\nc v=1i\n", "lp-invalid-db"), reqLP("implp", "d.b", "a v=1i\nb v=1i\n", "implp-invalid-db"))
+	}
 	// --- zero-row columnar record, then an import that flushes everything
 	add("empty-arrays-then-import",
 		reqMsgpackRaw("db1", mp(columnarMap("z", []col{{"x", []interface{}{}}})), "columnar-empty-arrays"),
